@@ -88,7 +88,8 @@ CHECKS["C09"] = dict(
     level_text="After every event each instance's raw store equals the reference (per id the newest UpdatedAt among versions received and not past retention at receipt; never newer->older; never resurrect past retention; GC exactly at expiry) and a merge that changes nothing calls broadcast zero times; every order, duplication and batching of a version multiset inside one window yields the same store.",
     level_note="Histories that straddle the expiry of a tombstone are judged by the step rule only (order dependence after tombstone expiry is inherent to the design and not demanded by the statement). 'eventually effective on every connected instance' is decided on the mesh fixture (C19).",
     assumptions=E1_ASSUME,
-    units=[dict(pkg="silence", test="TestVerifC09", shards_quick=16, shards_thorough=16, budget_quick=90, budget_thorough=1200)],
+    units=[dict(pkg="silence", test="TestVerifC09", shards_quick=16, shards_thorough=16, budget_quick=90, budget_thorough=1200),
+           dict(pkg="silence", test="TestVerifC09Limits", shards_quick=1, shards_thorough=1, budget_quick=60, budget_thorough=300)],
 )
 
 CHECKS["C10"] = dict(
@@ -252,7 +253,7 @@ CHECKS["C19"] = dict(
     level_text="After every event no node has lost or regressed an update, holds only updates some node made, and garbage (truncated, bit-flipped, unknown key, empty, malformed part inside a full state) changes nothing and does not block the valid parts; in the closing phase every fresh update (small by gossip, oversized by reliable send) reaches every connected node without push/pull, and after push/pull every node - including a late joiner - holds everything.",
     level_note="memberlist is replaced by the harness in this part: Peer.AddState's closures are restated in harness/cluster/busnode.go (send is identical; peers/sendOversize are injected). The mesh part (C08/C19-mesh) runs the real memberlist and the real AddState.",
     assumptions=E1_ASSUME,
-    units=[dict(pkg="app", test="TestVerifC19Bus", shards_quick=8, shards_thorough=16, budget_quick=200, budget_thorough=1500),
+    units=[dict(pkg="cluster", test="TestVerifC19Bus", shards_quick=8, shards_thorough=16, budget_quick=200, budget_thorough=1500),
            dict(pkg="app", test="TestVerifC19Mesh", shards_quick=8, shards_thorough=16, budget_quick=200, budget_thorough=1500),
            dict(pkg="cluster", test="TestVerifC19TLS", gomaxprocs=1, shards_quick=1, shards_thorough=1, budget_quick=60, budget_thorough=300)],
 )
